@@ -37,7 +37,7 @@ func runC02(c *Ctx) {
 	c02R4(c, p)
 	c02R5(c, p, "C02.R5")
 	c02R6(c, p)
-	c02R7(c, p)
+	c02R7(c, p, "C02.R7")
 	c02R8(c, p)
 }
 
@@ -931,8 +931,7 @@ func init() {
 // test has the capturer on the en-passant square and neither the capturer's
 // old square, nor the pushed pawn's destination, nor (the move has not been
 // played yet) the pushed pawn's ORIGIN square.
-func c02R7(c *Ctx, p *Prog) {
-	const rule = "C02.R7"
+func c02R7(c *Ctx, p *Prog, rule string) {
 	fn := p.Func("board.(*Board).CanEnPassant")
 	if fn == nil {
 		c.Anchor(rule, "board.(*Board).CanEnPassant")
@@ -990,22 +989,44 @@ func c02R7(c *Ctx, p *Prog) {
 	// (b) simulated occupancy
 	occ := stripConv(att.Call.Args[2])
 	var incl, excl []ssa.Value
-	if bo, ok := occ.(*ssa.BinOp); ok {
-		switch bo.Op {
-		case token.AND_NOT:
-			flattenOr(bo.X, &incl)
-			flattenOr(bo.Y, &excl)
-		case token.AND:
-			for _, pr := range [][2]ssa.Value{{bo.X, bo.Y}, {bo.Y, bo.X}} {
-				if u, ok := pr[1].(*ssa.UnOp); ok && u.Op == token.XOR {
-					flattenOr(pr[0], &incl)
-					flattenOr(u.X, &excl)
+	okShape := true
+	var decompose func(v ssa.Value, neg bool)
+	decompose = func(v ssa.Value, neg bool) {
+		v = stripConv(v)
+		switch x := v.(type) {
+		case *ssa.BinOp:
+			switch {
+			case x.Op == token.OR:
+				decompose(x.X, neg)
+				decompose(x.Y, neg)
+				return
+			case x.Op == token.AND_NOT && !neg:
+				decompose(x.X, false)
+				decompose(x.Y, true)
+				return
+			case x.Op == token.AND && !neg:
+				// a & ^b
+				for _, pr := range [][2]ssa.Value{{x.X, x.Y}, {x.Y, x.X}} {
+					if u, ok := pr[1].(*ssa.UnOp); ok && u.Op == token.XOR {
+						decompose(pr[0], false)
+						decompose(u.X, true)
+						return
+					}
 				}
 			}
+		case *ssa.Phi:
+			okShape = false // occupancy carried across candidates: not the per-candidate simulation the rule understands
+			return
+		}
+		if neg {
+			excl = append(excl, v)
+		} else {
+			incl = append(incl, v)
 		}
 	}
-	if len(excl) == 0 {
-		c.Undec(rule, "CanEnPassant#occupancy", att.Pos(), "occupancy of the capture simulation is not of the form (pieces | added) &^ (removed)")
+	decompose(occ, false)
+	if !okShape {
+		c.Undec(rule, "CanEnPassant#occupancy", att.Pos(), "the simulated occupancy is carried from one candidate capturer to the next (loop-carried value): each candidate must be tested on its own board")
 		return
 	}
 	// square offsets relative to `to` of 1<<(to - k*shift) terms; shift = shifts[STM]
